@@ -15,7 +15,9 @@ Inductive eff :=
 | ECapture           (* _capture_exception: sandbox.exception := e, one runtime feedback attached *)
 | EStudentFinished   (* exec(student code) completed without raising *)
 | ESetTrace          (* tracer __enter__: sys.settrace(tracer) *)
-| ERestoreTrace.     (* tracer __exit__: sys.settrace(old) *)
+| ERestoreTrace      (* tracer __exit__: sys.settrace(old) *)
+| ESetTerminated     (* InterruptableThread.terminate: self.terminated = True *)
+| EAsyncRaise.       (* InterruptableThread.terminate: the SystemExit is injected into the student thread *)
 
 Record pstate := mkP { patches : nat; stdouts : nat; traces : nat }.
 Definition p0 := mkP 0 0 0.
